@@ -84,6 +84,7 @@ func (c *Collection) writeWithMeta(key string, body []byte, xattrs []byte, oldCa
 		return err
 	}
 	if e != nil {
+		verifPoint("event.prepost")
 		c.postNewEvent(e)
 	}
 	return nil
